@@ -2,7 +2,6 @@ package hapcfg
 
 import (
 	"fmt"
-	"os"
 	"strings"
 )
 
@@ -38,8 +37,8 @@ func (s LintStats) Kinds() int {
 }
 
 func exists(path string) bool {
-	st, err := os.Stat(path)
-	return err == nil && !st.IsDir()
+	_, err := ReadFile(path)
+	return err == nil
 }
 
 // Lint checks every symbolic reference of the loaded configuration.
